@@ -56,8 +56,11 @@ template <class G, class L> void concCase(size_t n, const std::vector<std::strin
     const G &g = gm;
     std::unordered_set<VertexIndex> S(vs.begin(), vs.end());
     std::vector<std::string> ref(NCALLS);
-    for (int k = 0; k < NCALLS; k++) ref[k] = readerCall<G, L>(g, k, S, s, t, scratch + "/ref");
-    emitAsQuery(g);
+    // the single-threaded reference is computed on a COPY: the shared object itself must be met "cold" by the reader threads (a lazily
+    // filled cache or hint would otherwise be warmed up here and the race on its first use never happen)
+    const G refg(gm);
+    for (int k = 0; k < NCALLS; k++) ref[k] = readerCall<G, L>(refg, k, S, s, t, scratch + "/ref");
+    emitAsQuery(refg);
     std::atomic<int> go(0); std::atomic<long> bad(0);
     std::vector<std::thread> th;
     for (unsigned id = 0; id < T; id++)
